@@ -147,7 +147,7 @@ Section Ext.
         | "deluser" => Some (if (n <? 3)%nat then (aw, RErr) else (with_acl aw (delete_users (aw_acl aw) (skipn 2 argv)), ROk))
         | "users" => Some (aw, RArr (map (fun u => RBulk (u_name u)) (table (aw_acl aw))))
         | "whoami" => Some (match a_conns (aw_acl aw) !! c with
-                            | Some r => (aw, RSimple (u_name (deref (aw_acl aw) (c_user r))))
+                            | Some r => (aw, RBulk (u_name (deref (aw_acl aw) (c_user r))))
                             | None => (aw, RPanic)
                             end)
         | "load" => Some (match argv with
